@@ -25,8 +25,8 @@ func init() {
 					}
 				}
 				for shared := int64(0); shared <= 1; shared++ {
-					for a := int64(0); a < 9; a++ {
-						for b := a; b < 9; b++ {
+					for a := int64(0); a < 11; a++ {
+						for b := a; b < 11; b++ {
 							cs = append(cs, mkCase("", "c08", "HFilePair", cfg, kind, shared, a, b))
 						}
 					}
